@@ -51,6 +51,8 @@ def expr(op):
         return "(reverse %s %s)" % (k, x)
     if n == "insert-index":
         return "(insert-index %s %s %d %s)" % (k, x, op["i"], arg(op["ints"][0]))
+    if n == "applysort":
+        return "(apply (lambda (%s&rest xs) (stable-sort < xs)) %s)" % ("a " if op["i"] == 1 else "", x)
     if n == "zip":
         return "(zip %s %s %s)" % (k, x, y)
     if n == "insert-sorted":
